@@ -160,7 +160,7 @@ def recordWrk (s : RegState) (nowSec : Nat) (m : RegMeta) (height : Nat) (r : Re
   let num1 := addU64 m.num 1
   let deleteHeight := m.lowest
   let lowest1 := if m.lowest = 0 then height else m.lowest
-  let (limit, _) := s.limitOf id
+  let limit := (s.limitOf id).1
   if num1 > limit ∧ deleteHeight > 0 then
     let s2 := { s1 with recs := AL.erase s1.recs (id, deleteHeight) }
     let m' := { m with last := height, num := subU64 num1 1, lowest := s2.lowestRetained id }
@@ -177,7 +177,7 @@ def recordBcn (s : RegState) (m : RegMeta) (hash : String) (submitTime : Nat) : 
   let last1 := if tsid > m.last then tsid else m.last
   let first1 := if m.lowest = 0 then tsid else m.lowest
   let num1 := addU64 m.num 1
-  let (limit, _) := s.limitOf id
+  let limit := (s.limitOf id).1
   if num1 > limit then
     let s2 := { s1 with recs := AL.erase s1.recs (id, first1) }
     let m' := { m with last := last1, lowest := addU64 first1 1, num := subU64 num1 1 }
